@@ -269,6 +269,16 @@ def _step(w, rng, vg, op, tracked, envs, specs, outer, new_obj, hist, viol):
         xr = getattr(obj._xobject, xn)
         if mid == "None" and xr is not None:
             viol("reference-not-nulled-in-buffer", f"{pn}")
+        # the attribute reflects the buffer data at this point too (null, or the other target: dressed or bare)
+        pa = getattr(obj, pn)
+        w.count("attribute_checked_after_reference_set_without_dressed_object")
+        if mid == "None":
+            if pa is not None:
+                viol("attribute-still-denotes-old-target-after-reference-was-nulled", f"{pn}: buffer holds a null reference, the attribute reads {pa!r}")
+        else:
+            px = getattr(pa, "_xobject", pa)
+            if px is None or int(px._offset) != int(other.obj._xobject._offset):
+                viol("attribute-still-denotes-old-target-after-reference-was-rebound", f"{pn}: buffer refers to #{other.i}, the attribute reads {pa!r}")
         setattr(obj, pn, X.obj)
         _set_model(t, xp, xn, X.i)
         xr = getattr(obj._xobject, xn)
